@@ -508,7 +508,7 @@ var JavascriptTestValue interface{}
 // Currently the Javascript implementation is
 // https://github.com/robertkrimen/otto.  We might also eventually
 // support https://code.google.com/p/v8/ .
-func RunJavascript(ctx *Context, bs *Bindings, props map[string]interface{}, src interface{}) (interface{}, error) {
+func RunJavascript(ctx *Context, bs *Bindings, props map[string]interface{}, src interface{}) (result interface{}, err error) {
 	timer := NewTimer(ctx, "RunJavascript")
 	defer timer.Stop()
 	Log(DEBUG, ctx, "core.RunJavascript", "code", src)
@@ -914,12 +914,15 @@ func RunJavascript(ctx *Context, bs *Bindings, props map[string]interface{}, src
 				if caught == Halt {
 					Log(WARN, ctx, "core.RunJavascript", "timedout", timeout,
 						"after", duration, "time", time.Now())
+					// Report the timeout to the caller (this used
+					// to return a nil result and a nil error).
+					result, err = nil, fmt.Errorf("Javascript timed out after %v", duration)
 					return
 				}
 				panic(caught) // Something else happened, so repanic!
 			}
 		}()
-		watchdogCleanup := make(chan bool)
+		watchdogCleanup := make(chan bool, 1) // No blocking: the watchdog may already have fired and gone
 		runtime.Interrupt = make(chan func(), 1) // No blocking
 
 		defer func() {
